@@ -9,7 +9,7 @@ RULE = ("byte-level rejection routines on crafted buffers (all-accept, all-rejec
         "high and low nonce bytes for each of the 6 poly modules; the vector samplers (nonce layouts of ExpandA / ExpandS / "
         "ExpandMask) for the 3 polyvec modules. Every answer is compared with an independent Python RejNTTPoly / RejBoundedPoly / "
         "ExpandMask / SampleInBall over hashlib SHAKE, and with the range/weight conditions. distinct_nontrivial = distinct requests; "
-        "the evidence counts how many eta samples needed a second stream block.")
+        "the evidence counts how many eta samples needed a second stream block. Corpus: tight eta streams, ExpandMask at the ends of its range; rej_uniform buffers with runs of out-of-range candidates.")
 EXPLANATION = ("Props/C17.lean: the rejection routines return exactly the accepted values in order for any buffer (list induction), "
                "ranges of accepted values; the samplers are those routines applied to the SHAKE stream. Refill of uniform/challenge "
                "(probability < 2^-100 with real SHAKE) is covered by the theorems only: it cannot be exercised without an XOF tap.")
